@@ -5,7 +5,8 @@
   with the repairs fixes/C09-recurse0-strchr.patch (the search for '#' does not start
   behind the name's terminator) and fixes/C09-recurse0-index-text.patch (the text behind
   a `#N` of a sub-tree name is appended as it is; the unrepaired code wrote "N/" and
-  swallowed a following '/', so `a#2b/` was reported as "a0/b/") applied.
+  swallowed a following '/', so `a#2b/` was reported as "a0/b/") and
+  fixes/C09-enabled-subport-runtime.patch (see `portIsEnabled`) applied.
 
   * A port table is a `List PortT` (C18's tree type: name, metadata block, `ports != NULL`,
     sub-table).  A `const Port*` handed to the walker callback is the *index path* of the
@@ -193,9 +194,11 @@ def subportScan : Bytes → Bytes → Bool × Bytes
 
 /-- `port_is_enabled(port, loc, loc_size, base, runtime, relative_to_parent, walker, data)`.
     `port` is `(row in base, the port)` or NULL; `path` is the index path of the table
-    `base`.  Result: the return value and the walker calls made. -/
+    `base`; `portRt` is the port's own object (`port_runtime`, with the repair
+    fixes/C09-enabled-subport-runtime.patch: a toggle *inside* the sub-tree is asked on the
+    sub-tree's object, not on its parent's).  Result: the return value and the walker calls made. -/
 def portIsEnabled (port : Option (Nat × PortT)) (b : Buf) (base : List PortT) (path : List Nat)
-    (rt : Option Obj) (rel : Bool) : M (Bool × List Call) :=
+    (rt : Option Obj) (rel : Bool) (portRt : Option Obj := none) : M (Bool × List Call) :=
   match port, rt with
   | some (_, p), some obj =>
     match Meta.portMeta p.metadata with
@@ -233,7 +236,9 @@ def portIsEnabled (port : Option (Nat × PortT)) (b : Buf) (base : List PortT) (
                 match collapseStr (locCopy ++ [0]) with
                 | none => .error .oob
                 | some (_, collapsed) =>
-                  match obj.toggle (lit ask.name) with
+                  -- ask_runtime = (subport && port_runtime) ? port_runtime : runtime
+                  let askObj := if subport then portRt.getD obj else obj
+                  match askObj.toggle (lit ask.name) with
                   | none => .error .undef
                   | some res =>
                     if !res && (subport || !rel) then .ok (res, [(apath ++ [k], collapsed)])
@@ -270,7 +275,7 @@ def recurseGate (p : PortT) (i : Nat) (b : Buf) (base : List PortT) (path : List
       | none => .error .undef
       | some none => .ok (none, [])                       -- r.obj == NULL
       | some (some child) =>
-        match portIsEnabled (some (i, p)) b base path rt true with
+        match portIsEnabled (some (i, p)) b base path rt true (some child) with
         | .error e => .error e
         | .ok (en, cs) => .ok (if en then some (some child) else none, cs)
 
